@@ -257,7 +257,7 @@ def step (s : S) : Op → Option S
         -- one task: it is inside the direct attempt, or (after that failed) inside the indirect one
         if dRunning s.d then
           let s := cancelDirect s
-          if s.d = .cancelled then { s with res := .cancelled } else s
+          some (if s.d = .cancelled then { s with res := .cancelled } else s)
         else some { cancelIndirect s with res := .cancelled }
       | .race =>
         -- parked in `asyncio.wait` (no winner yet): both attempts are cancelled and gathered;
